@@ -48,8 +48,12 @@ def eq(a, b):
 
 def check(ctx, identity, payload, meta, params):
     msm = refmodel.is_msm_identity(identity)
+    order = list(OPTS)
+    ctx.rng.shuffle(order)  # state leaking from one parse into the next must not depend on a fixed order
     try:
-        res = {opt: via("ctor", payload, opt) for opt in OPTS}
+        res = {}
+        for opt in order:
+            res[opt] = via("ctor", payload, opt)
     except Exception as e:
         ctx.violation("option-parse-raised", f"{identity}: {type(e).__name__}: {str(e)[:160]}", params)
         return
@@ -88,6 +92,11 @@ def check(ctx, identity, payload, meta, params):
             d = dict(res[opt])
             for k, (sid, gid) in enumerate(cells, 1):
                 lab = d.get(f"CELLSIG_{k:02d}")
+                if opt == 1 and not refmsm.sig_ok(pre, gid, lab):
+                    ctx.violation("rinex-option-label", f"{identity}: under labelmsm=1 (parsed in option order {order}) "
+                                  f"signal ID {gid} of {refmsm.CONSTELLATION[pre]} is labelled {lab!r}, not its RINEX code",
+                                  params)
+                    return
                 key = (opt, pre, gid)
                 old = ctx.labelmap.setdefault(key, lab)
                 if old != lab:
